@@ -5,6 +5,7 @@
 -/
 import GV.Proofs.PacketIds
 import GV.Proofs.EngineWF
+import GV.Proofs.EngineClose
 namespace GV.Props.C06
 open GV
 
@@ -142,5 +143,15 @@ theorem written_operation_has_its_id (cfg : Config) (evs : List Event) (id : Nat
 example : ((runEvents (Engine.new {}) [.user 0 (.publish { qos := 1, topic := [97] } 7 none), .opened 1 100, .service 2 4096 0,
       .writeDone 3, .data 4 [0x20, 0x03, 0x00, 0x00, 0x00], .service 5 4096 0]).1.allocated) = [(1, 1)] := by
   decide +kernel
+
+/-- **Two packet ids never await acknowledgement for the same operation**: after any history the operations named by the
+    pending-publish table are pairwise distinct, and so are those named by the pending-subscribe table. -/
+theorem pending_tables_name_distinct_operations (cfg : Config) (evs : List Event) :
+    (vals (runEvents (Engine.new cfg) evs).1.pendingPub).Nodup ∧ (vals (runEvents (Engine.new cfg) evs).1.pendingNonPub).Nodup := by
+  have b := (inv_after cfg evs).2.1
+  exact ⟨vals_nodup _ b.tps (runEvents (Engine.new cfg) evs).1.ops (fun pid id hl => by
+      obtain ⟨o, ho, hpid, _⟩ := b.tp pid id hl; exact ⟨o, ho, hpid⟩),
+    vals_nodup _ b.tns (runEvents (Engine.new cfg) evs).1.ops (fun pid id hl => by
+      obtain ⟨o, ho, hpid, _⟩ := b.tn pid id hl; exact ⟨o, ho, hpid⟩)⟩
 
 end GV.Props.C06
